@@ -65,6 +65,20 @@ PROPS = {
             {"run": "^TestC04$", "quick": 5000, "thorough": 30000},
         ],
     },
+    "C05": {
+        "level": "exploration",
+        "exhaustive_quick": True,
+        "exhaustive_thorough": True,
+        "assumptions": [
+            "the matrix (23 schema types x 45 Go types x 5 positions) is enumerated completely in every run; the quick tier uses one canary width per cell (rotating with the seed), the thorough tier all eight",
+            "values per cell are a fixed list of 2-10 in-range and out-of-range datums with distinct byte patterns",
+            "a store outside the guarded struct that lands in unrelated heap memory is visible only as a crash of the worker or as a wrong neighbouring element",
+        ],
+        "units": [
+            regress("C05"),
+            {"run": "^TestC05$", "quick": 1, "thorough": 1, "rapid": False},
+        ],
+    },
     "C06": {
         "level": "exploration",
         "assumptions": [
@@ -149,6 +163,17 @@ PROPS = {
             regress("C19"),
             {"run": "^TestC19Dates$", "quick": 1, "thorough": 1, "rapid": False},
             {"run": "^TestC19$", "quick": 30000, "thorough": 300000},
+        ],
+    },
+    "C11": {
+        "level": "exploration",
+        "assumptions": [
+            "runs in a worker with GODEBUG=clobberfree=1 and GC percent 1: an object the collector cannot see at the moment of a collection is overwritten immediately, so one collection after decode suffices for anything unreachable at that moment",
+            "collection points are sampled (GCPoint fields, callback, after the read, background collector during encode), not enumerated: a window inside a single codec call is only hit by the background collector",
+        ],
+        "units": [
+            regress("C11"),
+            {"run": "^TestC11$", "quick": 1500, "thorough": 10000},
         ],
     },
     "C13": {
